@@ -449,6 +449,13 @@ func (e *stEngine) run() {
 	if Thorough() {
 		maxOps = 120
 	}
+	// many values under one reputation id: the per-id value counter is part of
+	// the keys and its encoding grows at 128 and 256
+	repBurst, repBurstEp, repBurstPeer := 0, 0, 0
+	if Chance(t, "repBurst?", 12) {
+		repBurst = []int{126, 127, 128, 129, 200, 255, 256, 257}[Pick(t, "repBurst", 8)]
+		repBurstEp, repBurstPeer = Pick(t, "repBurstEp", 6), Pick(t, "repBurstPeer", 8)
+	}
 	ops := OpsSlice(t, rapid.Custom(stGenOp), maxOps)
 
 	e.usedSet = map[int64]bool{}
@@ -553,6 +560,19 @@ func (e *stEngine) run() {
 		add(stOp{Kind: stTick})
 		e.block(pending, 1)
 		pending = nil
+	}
+
+	for i := 0; i < repBurst; i++ {
+		add(stOp{Kind: stRepPut, A: repBurstPeer, B: 1, EpBase: repBurstEp})
+		// the blocks around the boundaries are short, so that the sweep looks
+		// at 127, 128, 129 … values
+		if len(pending) >= 50 || (i >= 120 && i%128 >= 120) || i%128 < 3 && i > 3 || i == repBurst-1 {
+			e.block(pending, 1)
+			pending = nil
+		}
+	}
+	if repBurst > 0 {
+		e.r.Count("probe.reputation_id_with_more_than_127_values")
 	}
 
 	flush := func(extraEmpty int, dt int) {
